@@ -46,10 +46,7 @@ MIRRORED = [('mitxgraders/baseclasses.py', 'ItemGrader.__call__'),
             ('mitxgraders/helpers/calc/math_array.py', 'MathArray.enable_negative_powers'),
             ('mitxgraders/helpers/calc/expressions.py', 'MathExpression.eval_variable'),
             ('mitxgraders/helpers/math_helpers.py', 'MathMixin.validate_math_config')]
-REFUTED = ['C11_call_history_independent_refuted', 'C11_debuglog_fresh_each_call_refuted',
-           'C11_poisoned_answers_refuted', 'C11_poison_displaces_valid_expect_refuted',
-           'C11_stale_debuglog_refuted', 'C11_stale_debuglog_nontext_input_refuted',
-           'C11_frame_author_config_untouched_refuted']
+REFUTED = []
 TRUSTED = [
     'translator translate/protocol.py (Python ast -> command programs of Lib/ProtocolSyntax.v; the tail of '
     'AbstractGrader.__call__ and two log-formatting statements are pinned by AST digest; write-site inventory by '
@@ -70,14 +67,14 @@ ASSUMPTIONS = [
     'an expect value counts as successfully supplied when inference, schema validation and post-validation accept it '
     '(whether or not grading the accompanying input then raises)',
 ]
-LEVEL_TEXT = ('Call protocol (ItemGrader/AbstractGrader.__call__, create_debuglog) as programs regenerated from the source: '
-              'for graders with configured answers the full history-independence statement is proved for histories of any '
-              'length; for graders inferring answers from expect it is proved for all histories free of three kinds of '
-              'event and REFUTED otherwise (half-validated answers stored when post-validation fails; log_created left set '
-              'after a failed inference or a non-text input); the full statement is proved of the repaired protocol. The '
-              'negative-power switch is proved restored on every exit and history-independent. Frame conditions: finite '
-              'theorems over a regenerated inventory of every write site of mitxgraders/ (one reviewed defect: '
-              'IntervalGrader.__init__ writes into the author dictionary), backed by run-time snapshots.')
+LEVEL_TEXT = ('Call protocol (ItemGrader/AbstractGrader.__call__, create_debuglog) as programs regenerated from the source on every '
+              'run: the full history-independence statement is proved for histories of any length, all oracle assignments, '
+              'answers configured or inferred, debug on or off; the instance state after any history is proved to be a function '
+              'of the last successfully supplied expect value, a rejected expect value leaves no trace, and the debug log handed '
+              'back speaks of the current call only. The negative-power switch is proved restored on every exit and '
+              'history-independent. Frame conditions: finite theorems over a regenerated inventory of every write site of '
+              'mitxgraders/ (none writes into an author-supplied object; process-wide settings have designated writers only), '
+              'backed by run-time snapshots.')
 LEVEL_NOTE = ('Protocol theorems: induction over histories with state invariants, oracles universally quantified, no axioms. '
               'Frame part is partial: static inventory + review table + snapshots, no heap model. Trusted: Coq kernel, '
               'translate/protocol.py, harness/props/c11.py.')
@@ -85,12 +82,22 @@ TECHNIQUE = ('Coq proof (small-step interpreter of regenerated command programs,
              'source-to-program translator + write-site inventory + vm_compute trace correspondence + fresh-instance oracle')
 DESIGN_REF = 'DESIGN.md section 3, C11'
 
-FINDINGS = {
-    'poison': 'inferred-answers-stored-before-post-validation',
-    'stale-log': 'log_created-left-set-when-call-raises-before-reset',
-    'author-dict': 'intervalgrader-init-writes-into-author-config-dict',
-    'debug-subgrader': 'singlelistgrader-debug-subgrader-has-no-debuglog-until-called',
-}
+# No defect is currently known for C11.  The four that the machinery found on the original tree were repaired in /repo
+# (6d40b94, a320343: ItemGrader.__call__ validates into a local and clears log_created on every exit; ff4d9d4:
+# IntervalGrader.__init__ works on a copy; c45f4c9: SingleListGrader hands its debuglog to the subgrader).  Their
+# witnesses stay in the regression corpus below as ordinary cases that must pass; a recurrence is a plain VIOLATION.
+HISTORY_CORPUS = [
+    # (grader, configured, debug, events [(expect index | None, input index)])  -- indices as in class_specs()
+    ('SingleListGrader', False, False, [(2, 0), (1, 1)]),          # ('a,,b','b,a') then ('c,d','c,d')
+    ('SingleListGrader', False, False, [(1, 1), (2, 0), (None, 1)]),  # a rejected expect must not displace a valid one
+    ('IntervalGrader', False, False, [(2, 0), (0, 0)]),
+    ('IntervalGrader', False, False, [(3, 0), (None, 0)]),
+    ('FormulaGrader', False, True, [(2, 0), (1, 1)]),              # (5,'3') then ('7','7'): no stale debug log
+    ('FormulaGrader', False, True, [(0, 0), (2, 0), (None, 1)]),
+    ('StringGrader', False, True, [(0, 3), (None, 0)]),            # ('cat', 5) then (None,'cat')
+    ('SingleListGrader', False, True, [(0, 3), (0, 0)]),
+    ('SingleListGrader', False, True, [(2, 0), (0, 0)]),
+]
 
 
 # ------------------------------------------------------------------------------------------------
@@ -824,6 +831,7 @@ def world_factory(kind):
         graders = {
             'sg': sg, 'fg': fg, 'ng': ng,
             'list_s': ListGrader(answers=['cat', 'dog'], subgraders=sg),
+            'list_d': ListGrader(answers=['cat', 'dog'], subgraders=StringGrader(), debug=True),
             'list_sf': ListGrader(answers=['cat', 'x+1'], subgraders=[sg, fg], ordered=True),
             'single_s': SingleListGrader(subgrader=sg, answers=['a', 'b']),
             'single_f': SingleListGrader(subgrader=fg),
@@ -834,6 +842,7 @@ def world_factory(kind):
             'fg': ([None, 'x+1', '2*x', 5], ['x+1', '2*x', 'x+', '1+x']),
             'ng': ([None, '3', '4'], ['3', '4', '1+2', '(']),
             'list_s': ([None, 'ignored'], [['cat', 'dog'], ['dog', 'cat'], ['cat', 'x'], 'cat', ['cat']]),
+            'list_d': ([None, 'ignored'], [['cat', 'dog'], ['dog', 'cat'], ['cat', 'x'], 'cat', ['cat']]),
             'list_sf': ([None], [['cat', 'x+1'], ['cat', '1+x'], ['dog', 'x'], ['cat', 'x+']]),
             'single_s': ([None, 'z,w'], ['a,b', 'b,a', 'a', 'a,,b', 'a,c']),
             'single_f': ([None, 'x,2*x', 'x+1,1', 'x,,1'], ['x,2*x', '2*x,x', 'x+1,1', 'x', 'x,']),
@@ -971,6 +980,7 @@ def mixed_violation(kind, calls):
 
 
 MIXED_CORPUS = [
+    ('shared', [('list_d', None, ['cat', 'dog']), ('list_d', None, ['dog', 'cat'])]),
     ('matrices', [('m_wipe', None, 'wipe(A)'), ('m_wipe', None, 'A')]),
     ('debugsub', [('fgd', '1', '1'), ('single_fd', None, '1,2')]),
     ('shared', [('single_f', 'x,,1', 'x'), ('single_f', 'x,2*x', 'x,2*x')]),
@@ -1233,6 +1243,27 @@ def describe_change(a, b):
 # ------------------------------------------------------------------------------------------------
 # run
 # ------------------------------------------------------------------------------------------------
+def history_corpus(res):
+    """minimised histories that went wrong before the fixes: run on constructed instances on every run; they must pass"""
+    specs = class_specs()
+    for name, configured, debug, events in HISTORY_CORPUS:
+        spec = specs[name]
+        canon = Canon(spec)
+        T = measure_tables(spec, configured, debug, canon)
+        cache = {}
+        for i in range(1, len(events) + 1):
+            hist = [tuple(ev) for ev in events[:i]]
+            obs, _ = run_sequence(spec, configured, debug, canon, T, hist)
+            want = demanded(spec, configured, debug, canon, T, cache, hist)
+            res.oracle_evals += 1
+            if obs[-1][0] != want and 'timeout' not in (obs[-1][0][0], want[0]):
+                key = 'history:%s/%s/%s/%s' % (name, 'configured' if configured else 'inferring',
+                                               'debug' if debug else 'nodebug', json.dumps(hist))
+                res.witnesses.append(history_witness(name, configured, debug, canon, T, hist, obs[-1][0], want, key))
+                break
+    res.distribution['corpus_histories'] = len(HISTORY_CORPUS)
+
+
 def combos():
     out = []
     for name in ['StringGrader', 'FormulaGrader', 'NumericalGrader', 'MatrixGrader', 'SingleListGrader', 'IntervalGrader']:
@@ -1295,6 +1326,7 @@ def run(ctx):
     res.distribution['nodes_where_the_regenerated_program_departs_from_the_property'] = departs
     res.exhaustive = True
     t2 = time.time()
+    history_corpus(res)
     construction_checks(ctx, res)
     res.distribution['construction_wall_s'] = round(time.time() - t2, 1)
     t3 = time.time()
@@ -1303,14 +1335,12 @@ def run(ctx):
     res.nontrivial = sweep_nontrivial + len(res.nontrivial)
     by = {}
     for w in res.witnesses:
-        k = finding_of(w) or 'UNCLASSIFIED'
-        by[k] = by.get(k, 0) + 1
-    res.distribution['witnesses_by_finding'] = by
-    # one representative per finding first (the driver prints the first few distinct witnesses)
+        by[w.get('kind', '?')] = by.get(w.get('kind', '?'), 0) + 1
+    res.distribution['witnesses_by_kind'] = by
+    # shortest witnesses first, one per (kind, grader/world) before the rest (the driver prints the first few)
     first, rest, seen = [], [], set()
-    for w in sorted(res.witnesses, key=lambda w: (len(w.get('events', w.get('calls', []))), w.get('grader', '') != 'SingleListGrader',
-                                                  w.get('key', ''))):
-        k = finding_of(w) or ('UNCLASSIFIED', w.get('kind'), w.get('grader'), w.get('world'))
+    for w in sorted(res.witnesses, key=lambda w: (len(w.get('events', w.get('calls', []))), w.get('key', ''))):
+        k = (w.get('kind'), w.get('grader'), w.get('world'), w.get('debug'))
         if k not in seen:
             seen.add(k)
             first.append(w)
@@ -1356,44 +1386,6 @@ def replay(w):
     return False, 'unknown witness kind %r' % (kind,)
 
 
-def finding_of(w):
-    """the finding a witness belongs to, characterised by its (shrunk) triggering history"""
-    kind = w.get('kind')
-    if kind == 'history' and not w.get('configured'):
-        ev, stages, texts = w.get('events', []), w.get('stages', []), w.get('text_inputs', [])
-        n = len(ev)
-        if n == 2 and stages[0] == 'post' and w['grader'] in ('SingleListGrader', 'IntervalGrader'):
-            # one call whose expect passes the schema and fails post-validation, then the call that goes wrong
-            return FINDINGS['poison']
-        if w.get('debug') and n in (2, 3) and w.get('same_verdict'):
-            # the call right before raised after create_debuglog and before log_created was cleared:
-            # (expect rejected by the schema / post-validation) or (valid expect with a non-text input);
-            # the verdict is right, the log shown starts with that earlier call's input
-            prev_leaky = stages[n - 2] in ('schema', 'post') or (stages[n - 2] == 'valid' and not texts[n - 2])
-            log = w.get('observed_log') or []
-            stale = len(log) >= 2 and log[0] == ['V'] and log[1] == ['R', ev[n - 2][1]]
-            first_ok = n == 2 or (stages[0] == 'valid' and texts[0] and ev[2][0] is None)
-            if prev_leaky and stale and first_ok:
-                return FINDINGS['stale-log']
-    if kind == 'construct' and w.get('grader') == 'IntervalGrader' and w.get('mode') in ('dict', 'dict-twice') \
-            and "keys added ['subgrader'], removed [], changed []" in w.get('what', ''):
-        return FINDINGS['author-dict']
-    if kind == 'mixed' and w.get('world') == 'shared':
-        calls, stages = w.get('calls', []), w.get('stages', [])
-        if len(calls) == 2 and calls[0][0] == calls[1][0] and calls[0][0].startswith('single_') and stages[0] == 'post':
-            return FINDINGS['poison']
-    if kind == 'mixed' and w.get('world') == 'debugsub':
-        calls = w.get('calls', [])
-        if len(calls) == 2 and calls[0][0] == 'fgd' and calls[1][0] == 'single_fd' and 'Could not check input' in w.get('what', ''):
-            return FINDINGS['debug-subgrader']
-    return None
-
-
 def classify_known(w, known_entries):
-    fid = finding_of(w)
-    if fid is None:
-        return None
-    for e in known_entries:
-        if e.get('id') == fid:
-            return fid
+    """no C11 defect is known: every witness is a violation"""
     return None
